@@ -107,6 +107,15 @@ pub const PROGRAMS: &[&str] = &[
     "(.e.f += 1)?",
     "(.b[1].d = [.b[1].c])?",
     "[.[]?] | del(.[1])? | tojson",
+    // decoders working on text inside a run: a rejected document, then (in the same process,
+    // perhaps on another thread) a deeply nested valid one - what one parse leaves behind must
+    // not reach the next
+    "try ((\"[\" * 300) | fromjson) catch \"rejected\"",
+    "try ((\"{\\\"a\\\":[\" * 150) | fromjson) catch \"rejected\"",
+    "((\"[\" * 100) + (\"]\" * 100)) | fromjson | tojson | length",
+    "try ((\"- [\" * 40) | fromyaml) catch \"rejected\"",
+    "((\"[\" * 40) + (\"]\" * 40)) | fromyaml | tojson | length",
+    "try ((\"<a>\" * 60) | fromxml) catch \"rejected\"",
     "[.[]? as [$a, $b] | {a: $a, b: $b}]",
     "(.a? // null) as $x | (.b? // [null]) as [$y] | [$x, $y]",
     "tostring | ascii_downcase | test(\"NULL\"; \"ix\")",
@@ -396,7 +405,12 @@ fn main() {
             // a fresh process per program: compile it, run it on every input, nothing else
             let pi: usize = a(1).parse().expect("pi");
             let out: Vec<Vec<String>> = match compile(&programs()[pi]) {
-                Ok(f) => INPUTS.iter().map(|x| run_stream(&f, parse(x), || {})).collect(),
+                Ok(f) => {
+                    // (all inputs are decoded before the program runs at all: the oracle is about
+                    // the program, not about what an earlier run did to the decoder)
+                    let inputs: Vec<Val> = INPUTS.iter().map(|x| parse(x)).collect();
+                    inputs.into_iter().map(|x| run_stream(&f, x, || {})).collect()
+                }
                 Err(e) => INPUTS.iter().map(|_| vec![format!("# does not compile: {e}")]).collect(),
             };
             println!("{}", serde_json::to_string(&out).unwrap());
